@@ -51,6 +51,15 @@ CHECKS = {
              'version and both levels; after every call, successful or rejected, a walker asserts parent/lister agreement, '
              'single listing, index/list agreement, view agreement, shadow-children separation and version/level uniformity.',
         note='walker reads __dict__/children.list only'),
+    'C11': dict(
+        technique='runtime monitoring: deep-snapshot purity monitor around read chains and exact-materialisation check around the first write',
+        category='exploration', design='DESIGN.md §4 C11',
+        text='Read chains of depth 1-4 (by name, case variants, long name, positional path) are executed three times through '
+             'attribute access, len, repr, iteration, indexing, to_er7 and validate on segments and messages of every version; '
+             'encoding, public children (with identities) and validation report must not change. A terminal write must create '
+             'exactly the chain elements, once each, plus descendants of the last one, and the tokenizer must find the value at '
+             'the chain position and nothing else.',
+        note='public children = children.list / indexes; tokenizer decides positions'),
     'C12': dict(
         technique='runtime monitoring: deep-snapshot comparison around every rejected library call (fault enumeration over reachable states)',
         category='fault_enumeration', design='DESIGN.md §4 C12',
@@ -67,6 +76,14 @@ CHECKS = {
              'time-of-day, offset and calendar grids and over-long values, for every version and both levels; an independent '
              'HL7 grammar decides membership, re-encoding is compared with the input text / number.',
         note='trusts lexref; strings HL7 does not settle are not judged for acceptance'),
+    'C14': dict(
+        technique='runtime monitoring: object-identity oracle over an exhaustive sweep of spellings per table row',
+        category='exploration', design='DESIGN.md §4 C14',
+        text='Every field row, component row and leaf sub-component row of every version is written through one spelling and '
+             'read / deleted through all others (HL7 name and unique long name in lower, upper and mixed case; positional paths '
+             'from the field); the element reached must be the same object. Names of other parents and indices beyond the '
+             'table must raise ChildNotFound/ChildNotValid and create nothing.',
+        note='tables.py decides which long names are unique / usable'),
     'C15': dict(
         technique='runtime monitoring: exception-class monitor at the entry points under a seeded mutation fuzzer',
         category='exploration', design='DESIGN.md §4 C15',
